@@ -10,6 +10,7 @@ require (
 	github.com/gorilla/securecookie v1.1.2
 	github.com/rs/cors v1.11.1
 	github.com/zitadel/oidc/v3 v3.0.0
+	golang.org/x/net v0.36.0
 	golang.org/x/oauth2 v0.29.0
 )
 
